@@ -510,3 +510,11 @@ def q1w(ctx):
 
 
 RULES.append(q1w)
+
+
+@rule("MC", doc="must-call census: no function of this property's files has gained an early exit in front of work it always did (every crate-local call that lay on all paths to a normal return in the reviewed tree still does)")
+def mc(ctx):
+    C.must_call_census(ctx, ctx.lib(), ['src/slotmap.rs'])
+
+
+RULES.append(mc)
